@@ -1,7 +1,7 @@
 //! C12 — JSON encoder: one record, one line, and the fields round-trip exactly.
 
 use crate::par::run_cases;
-use crate::pattern_model::{split_pieces, CapW, Pieces};
+use crate::pattern_model::{split_pieces, CapW, PanickingMsg, Pieces};
 use crate::report::Report;
 use crate::rng::Rng;
 use crate::routing::LEVELS;
@@ -338,6 +338,13 @@ fn check_case(rep: &mut Report, rng: &mut Rng, c: &Case, thread_name: Option<&st
                 .args(format_args!("this record must never show up {}", 1)).build())
         });
         rep.count("records_preceded_by_a_failed_encode", 1);
+    }
+    if rng.chance(1, 6) {
+        // nor may a record whose message panics while it is being formatted (the panic is caught by the caller)
+        let mut w0 = CapW::new();
+        let _ = trap::catch(|| enc.encode(&mut w0, &Record::builder().level(log::Level::Error).target("PANICKED-RECORD")
+            .args(format_args!("{}", PanickingMsg)).build()));
+        rep.count("records_preceded_by_a_panicking_message", 1);
     }
     let t0 = Utc::now();
     let nesting = rng.chance(1, 10);
